@@ -531,7 +531,7 @@ func rulesTrieDelete(c *Ctx, r *Report, e *effEngine) {
 	}
 	// every len() of that map after the delete is the same quantity: preset them all
 	var extra []fsmInput
-	extra = append(extra, fsmInput{lenCall, []int64{0, 1, 2, 3}, "children"})
+	extra = append(extra, fsmInput{v: lenCall, dom: []int64{0, 1, 2, 3}, name: "children"})
 	m := buildFSM(c, f, header, nil, extra...)
 	if m.err != "" {
 		r.undecided("DEL-PRUNE", where, "pruning loop", c.pos(del.Pos()), "the pruning loop could not be evaluated: "+m.err)
